@@ -94,7 +94,7 @@ func TestMain(m *testing.M) {
 	auths = []*authority{newAuthority("tsa0", "p256b", false), newAuthority("tsa1", "rsa2048b", false), newAuthority("tsa2", "p384b", false)}
 	msAuths = []*authority{newAuthority("mstsa0", "rsa2048b", true), newAuthority("mstsa1", "p256b", true)}
 	cfg := env.Cfg
-	cfg.Timestamp = &config.TimestampConfig{Timeout: 1}
+	cfg.Timestamp = &config.TimestampConfig{Timeout: 2}
 	for _, a := range auths {
 		cfg.Timestamp.URLs = append(cfg.Timestamp.URLs, a.srv.URL)
 	}
@@ -142,6 +142,11 @@ type caseDesc struct {
 	Behaviours []string `json:"behaviour_per_url"`
 	Expect     string   `json:"expect"`
 	Error      string   `json:"error,omitempty"`
+}
+
+type c10fail struct {
+	msg    string
+	timing bool
 }
 
 func TestC10_Scripts(t *testing.T) {
@@ -218,83 +223,126 @@ func TestC10_Scripts(t *testing.T) {
 		if noTimestamp {
 			cd.Expect = "no-timestamp"
 		}
-		failf := func(f string, args ...any) {
-			cd.Error = fmt.Sprintf(f, args...)
-			evid.SaveCase("TestC10_Scripts", cd)
-			t.Fatalf("%s\n case: %+v", cd.Error, *cd)
-		}
-		err := env.SignLib(&pipe.Req{SigType: a.SigType, In: p, Key: key, Hash: h, Flags: flags})
-		nt := badBefore > 0 && expectIdx >= 0
-		rec.Case(fmt.Sprintf("%s|%s|%s|%v|%v", format, key, h, cd.Behaviours, noTimestamp), fmt.Sprintf("script/%s/bad-before=%d/expect=%d", map[bool]string{true: "legacy", false: "rfc3161"}[legacy], badBefore, expectIdx), nt)
-		if nt {
-			rec.Sample(fmt.Sprintf("script/bad-before=%d", badBefore), cd)
-		}
-		contacted := func(au *authority) int { return len(au.a.Requests()) }
-		if err != nil && strings.Contains(err.Error(), "PANIC") {
-			failf("signing panicked: %v", err)
-		}
-		if noTimestamp {
-			if err != nil {
-				failf("signing with no-timestamp failed: %v", err)
-			}
-			for i, au := range append(append([]*authority{}, auths...), msAuths...) {
-				if contacted(au) != 0 {
-					failf("authority %d was contacted although no-timestamp was given", i)
+		// Failures that a late reply can explain (the client gives an authority 2 s) are only
+		// reported when they repeat on three consecutive runs of the same script.
+		failf := func(f string, args ...any) { panic(c10fail{fmt.Sprintf(f, args...), false}) }
+		failTiming := func(f string, args ...any) { panic(c10fail{fmt.Sprintf(f, args...), true}) }
+		attemptNo := 0
+		run := func() (res *c10fail) {
+			defer func() {
+				if r := recover(); r != nil {
+					if f, ok := r.(c10fail); ok {
+						res = &f
+						return
+					}
+					panic(r)
 				}
+			}()
+			if attemptNo > 0 {
+				for i, au := range pool {
+					au.set(bs[i], attested.Add(time.Duration(i)*time.Hour))
+				}
+				for _, au := range auths {
+					if legacy {
+						au.set(tsa.Valid, attested)
+					}
+				}
+				for _, au := range msAuths {
+					if !legacy {
+						au.set(tsa.MSValid, attested)
+					}
+				}
+				os.WriteFile(p, a.Data, 0o644)
+			}
+			attemptNo++
+			err := env.SignLib(&pipe.Req{SigType: a.SigType, In: p, Key: key, Hash: h, Flags: flags})
+			nt := badBefore > 0 && expectIdx >= 0
+			if attemptNo == 1 {
+				rec.Case(fmt.Sprintf("%s|%s|%s|%v|%v", format, key, h, cd.Behaviours, noTimestamp), fmt.Sprintf("script/%s/bad-before=%d/expect=%d", map[bool]string{true: "legacy", false: "rfc3161"}[legacy], badBefore, expectIdx), nt)
+				if nt {
+					rec.Sample(fmt.Sprintf("script/bad-before=%d", badBefore), cd)
+				}
+			}
+			contacted := func(au *authority) int { return len(au.a.Requests()) }
+			if err != nil && strings.Contains(err.Error(), "PANIC") {
+				failf("signing panicked: %v", err)
+			}
+			if noTimestamp {
+				if err != nil {
+					failf("signing with no-timestamp failed: %v", err)
+				}
+				for i, au := range append(append([]*authority{}, auths...), msAuths...) {
+					if contacted(au) != 0 {
+						failf("authority %d was contacted although no-timestamp was given", i)
+					}
+				}
+				sigs, verr := env.Verify(&pipe.VerifyReq{Path: p})
+				if verr != nil {
+					failf("output does not verify: %v", verr)
+				}
+				if sigs[0].Sig.X509Signature != nil && sigs[0].Sig.X509Signature.CounterSignature != nil {
+					failf("a timestamp is attached although no-timestamp was given")
+				}
+				return nil
+			}
+			if expectIdx < 0 {
+				if err == nil {
+					failf("signing succeeded although no authority gave an acceptable reply")
+				}
+				now, _ := os.ReadFile(p)
+				if !bytes.Equal(now, a.Data) {
+					failf("signing failed (%v) but the input was modified", err)
+				}
+				return nil
+			}
+			if err != nil {
+				failTiming("signing failed although authority #%d answers acceptably: %v", expectIdx, err)
 			}
 			sigs, verr := env.Verify(&pipe.VerifyReq{Path: p})
 			if verr != nil {
-				failf("output does not verify: %v", verr)
+				failf("timestamped output does not verify: %v", verr)
 			}
-			if sigs[0].Sig.X509Signature != nil && sigs[0].Sig.X509Signature.CounterSignature != nil {
-				failf("a timestamp is attached although no-timestamp was given")
+			x := sigs[0].Sig.X509Signature
+			if x == nil || x.CounterSignature == nil {
+				failf("no timestamp attached although the key is configured for timestamping")
 			}
-			return
-		}
-		if expectIdx < 0 {
-			if err == nil {
-				failf("signing succeeded although no authority gave an acceptable reply")
+			cs := x.CounterSignature
+			want := pool[expectIdx]
+			if !bytes.Equal(cs.Certificate.Raw, want.a.Cert.Raw) {
+				who := "unknown"
+				for i, au := range pool {
+					if bytes.Equal(cs.Certificate.Raw, au.a.Cert.Raw) {
+						who = fmt.Sprint("authority#", i)
+					}
+				}
+				failTiming("attached timestamp is from %s, the first acceptable reply came from authority #%d", who, expectIdx)
 			}
-			now, _ := os.ReadFile(p)
-			if !bytes.Equal(now, a.Data) {
-				failf("signing failed (%v) but the input was modified", err)
+			if !cs.SigningTime.Equal(attested.Add(time.Duration(expectIdx) * time.Hour)) {
+				failf("attested time %v, authority issued %v", cs.SigningTime, attested.Add(time.Duration(expectIdx)*time.Hour))
 			}
-			return
-		}
-		if err != nil {
-			failf("signing failed although authority #%d answers acceptably: %v", expectIdx, err)
-		}
-		sigs, verr := env.Verify(&pipe.VerifyReq{Path: p})
-		if verr != nil {
-			failf("timestamped output does not verify: %v", verr)
-		}
-		x := sigs[0].Sig.X509Signature
-		if x == nil || x.CounterSignature == nil {
-			failf("no timestamp attached although the key is configured for timestamping")
-		}
-		cs := x.CounterSignature
-		want := pool[expectIdx]
-		if !bytes.Equal(cs.Certificate.Raw, want.a.Cert.Raw) {
-			who := "unknown"
-			for i, au := range pool {
-				if bytes.Equal(cs.Certificate.Raw, au.a.Cert.Raw) {
-					who = fmt.Sprint("authority#", i)
+			for i := expectIdx + 1; i < len(pool); i++ {
+				if contacted(pool[i]) != 0 {
+					failTiming("authority #%d was contacted after authority #%d had already answered acceptably", i, expectIdx)
 				}
 			}
-			failf("attached timestamp is from %s, the first acceptable reply came from authority #%d", who, expectIdx)
-		}
-		if !cs.SigningTime.Equal(attested.Add(time.Duration(expectIdx) * time.Hour)) {
-			failf("attested time %v, authority issued %v", cs.SigningTime, attested.Add(time.Duration(expectIdx)*time.Hour))
-		}
-		for i := expectIdx + 1; i < len(pool); i++ {
-			if contacted(pool[i]) != 0 {
-				failf("authority #%d was contacted after authority #%d had already answered acceptably", i, expectIdx)
+			for i := 0; i < expectIdx; i++ {
+				if contacted(pool[i]) == 0 {
+					failf("authority #%d was skipped", i)
+				}
 			}
+			return nil
 		}
-		for i := 0; i < expectIdx; i++ {
-			if contacted(pool[i]) == 0 {
-				failf("authority #%d was skipped", i)
+		for {
+			f := run()
+			if f == nil {
+				break
 			}
+			if !f.timing || attemptNo >= 3 {
+				cd.Error = f.msg
+				evid.SaveCase("TestC10_Scripts", cd)
+				t.Fatalf("%s\n case: %+v", cd.Error, *cd)
+			}
+			rec.Add("script_runs_repeated_after_a_timing_dependent_failure", 1)
 		}
 	})
 }
